@@ -99,6 +99,7 @@ def m_ops(state):
 # ---- implementation side --------------------------------------------------------------------------
 
 def fresh_ci():
+    B.build(B.seed_two_level())                   # an unrelated compose built first: nothing of it may show up in the new one
     ci = B.build(dict(B.seed_flat(), variants=[]))
     return ci
 
